@@ -173,8 +173,8 @@ TIE_A = ("tie (A): coq/theories/Gen/Terms.v is REGENERATED on every run from the
          "harness/src/bin/dump_terms.rs (calls every exported term-valued function; own 10-line serialiser; the "
          "enumeration is checked against `pub fn .. -> Term` in the sources) and the property's proofs are re-checked "
          "against it")
-DATA_TB = [KERNEL, NOAX, TIE_A, TIE_B + "; modelled: the reducer (as C01) and the conversion loops of "
-           "src/data/num/convert.rs, src/data/list/convert.rs, tuple!/pi!", ORACLE,
+DATA_TB = [KERNEL, NOAX, TIE_A, TIE_R, TIE_B + "; modelled by hand: the conversion loops of "
+           "src/data/num/convert.rs, src/data/list/convert.rs, the From impls, tuple!/pi!", ORACLE,
            "expected results are computed natively (usize arithmetic, Vec operations) by the harness and encoded with "
            "the Spec encoders of coq/theories/Spec/Encodings.v", OUTSIDE]
 DATA_ASM = ["bounded grids are theorems only for the bounds written in their statements",
